@@ -7,11 +7,12 @@ S5.2 collapsing stays inside the parenthesis level: collapse_root_stack_to absor
 S5.3 evaluation arms: Tuple -> Value::Tuple(all arguments), Chain -> last argument (error when empty), RootNode -> first | Empty;
 S5.4 Tuple binds tighter than Chain; both are sequences with unbounded arity.
 S5.5 element conservation in the sequence branch (see s55).
+S5.8 the decision a separator makes (continue the open sequence of its kind / open a new one) as a function of the kinds involved (s58);
 S5.6 every element is evaluated, in order: both recursive evaluators run one forward pass over all children of a node and apply
      the operator afterwards to all collected values (the C08 evaluator rule, reported here because `;` "evaluates all its elements").
 Not decided: tree equality for all mixed `,`/`;` programs (a run-time property of the root_stack algorithm)."""
 import tables
-from absint import Interp, SYM, C, ADT, OK, ERR, Fork, fmt, is_adt, Budget, has_subterm, apps
+from absint import Interp, SYM, C, ADT, OK, ERR, Fork, fmt, is_adt, Budget, has_subterm, apps, UNK as UNK_
 from rules.treepaths import sequence_branch_paths, opaque_hook, calls_of, branches_of, is_true, seed
 from rules.common import safe_tables
 
@@ -30,6 +31,7 @@ def run(ctx):
         return
     s51(ctx, prog)
     s55(ctx, prog)
+    s58(ctx, prog, T)
     s52(ctx, prog, T)
     s53(ctx, prog)
     s56(ctx, prog)
@@ -217,6 +219,208 @@ def s55(ctx, prog):
     ctx.floor('S5.5', 'open_sequence_paths', m, 1)
 
 
+def s58(ctx, prog, T):
+    """S5.8 the decision a separator makes. Along every path through the separator branch the branch conditions are functions of the
+    kinds of three nodes - `root` (the sequence or group on top of the stack), `node` (the incoming `,` / `;`) and, after a collapse,
+    the node popped below (`lower`) - and of whether the stack / a child list had an element to pop. The outcome of a path is which
+    node ends on top of root_stack and whether the separator node was placed (a new sequence is opened) or dropped (an open sequence is
+    continued). For every combination of kinds the consistent paths must give the outcome the composition rule demands:
+      root of the separator's kind                 -> continue root (node dropped, root back on top);
+      root is a group (RootNode)                   -> new sequence on top (node placed);
+      root binds looser than the separator         -> new sequence on top (node placed; it takes root's last element);
+      otherwise collapse, then pop `lower`: none   -> error; lower of the separator's kind -> continue lower (node dropped);
+                                            else   -> new sequence on top (node placed).
+    A condition that is none of these (a test of the stack depth, say) is a free boolean: the outcome must not depend on it."""
+    import itertools
+    try:
+        f, start, paths = sequence_branch_paths(prog)
+    except (ValueError, Budget) as e:
+        ctx.unrecognised('S5.8', 'sequence-branch', 'shape', str(e))
+        return
+    prec, isseq = T['precedence'], T['is_sequence']
+    ROOT, NODE, STACK = SYM('root'), SYM('node'), SYM('root_stack')
+
+    class Unknown(Exception):
+        pass
+
+    def who(x):
+        """'R' / 'N' / 'L' / 'K' when x is (the operator of) root / node / a node popped from root_stack / the collapse result"""
+        if x[0] == 'proj' and x[2][-1:] == ('operator',):
+            x = ('proj', x[1], x[2][:-1]) if len(x[2]) > 1 else x[1]
+        if x[0] == 'app' and x[1].split('::')[-1].split('#')[0] == 'operator' and len(x[2]) == 1:
+            x = x[2][0]
+        if x == ROOT:
+            return 'R'
+        if x == NODE:
+            return 'N'
+        if x[0] == 'proj' and x[1][0] == 'app':
+            nm = x[1][1].split('::')[-1].split('#')[0]
+            if nm in ('pop', 'last', 'last_mut') and x[1][2] and x[1][2][0] == STACK:
+                return roles.get(x[1][1], 'L')
+            if nm == 'collapse_root_stack_to':
+                return 'K'
+        return None
+
+    free = {}
+    roles = {}
+
+    def comp(term):
+        k = term[0]
+        if k == 'c':
+            v = term[1]
+            return lambda a: v
+        if k == 'adt' and 'Operator' in term[1]:
+            nm = term[3]
+            return lambda a: nm
+        if k == 'app':
+            name, args = term[1], term[2]
+            base = name.split('::')[-1].split('#')[0]
+            if name.startswith('binop:') and len(args) == 2:
+                import operator as _o
+                x, y = comp(args[0]), comp(args[1])
+                fn_ = {'Lt': _o.lt, 'Le': _o.le, 'Gt': _o.gt, 'Ge': _o.ge, 'Eq': _o.eq, 'Ne': _o.ne}.get(name.split(':')[1])
+                if fn_ is None:
+                    raise Unknown(fmt(term)[:100])
+                return lambda a: fn_(x(a), y(a))
+            if name.startswith('unop:Not') and len(args) == 1:
+                x = comp(args[0])
+                return lambda a: not x(a)
+            if base == 'discriminant' and len(args) == 1:
+                inner = args[0]
+                w = who(inner)
+                if w is not None and not (inner[0] == 'app'):
+                    return lambda a: a[w]                      # mem::discriminant of a node's operator: its kind
+                if inner[0] == 'app':
+                    nm = inner[1].split('::')[-1].split('#')[0]
+                    if nm == 'collapse_root_stack_to':
+                        return lambda a: 0 if a['collapse_ok'] else 1
+                    if nm in ('pop', 'last', 'last_mut', 'first') and inner[2]:
+                        key = 'has:' + (('root' if roles.get(inner[1]) == 'R' else 'stack') if inner[2][0] == STACK else fmt(inner[2][0])[:40])
+                        free.setdefault(key, None)
+                        return lambda a: 1 if a[key] else 0
+                if w is not None:
+                    return lambda a: a[w]
+                raise Unknown(fmt(term)[:100])
+            if base in ('eq', 'ne') and len(args) == 2:
+                x, y = comp(args[0]), comp(args[1])
+                return (lambda a: x(a) == y(a)) if base == 'eq' else (lambda a: x(a) != y(a))
+            if base in ('precedence', 'is_sequence') and len(args) == 1:
+                w = who(args[0])
+                if w is None:
+                    raise Unknown(fmt(term)[:100])
+                tab = prec if base == 'precedence' else isseq
+                return lambda a: tab[a[w]]
+            if base in ('is_empty', 'len') and len(args) == 1:
+                key = 'len:' + fmt(term)[:60]
+                free.setdefault(key, None)
+                if base == 'is_empty':
+                    return lambda a: bool(a[key])
+                return lambda a: 0 if a[key] else 2
+            w = who(term)
+            if w is not None:
+                return lambda a: a[w]
+        w = who(term)
+        if w is not None:
+            return lambda a: a[w]
+        raise Unknown(fmt(term)[:100])
+
+    compiled = []
+    try:
+        for ret, eff in paths:
+            # the path ends where this loop iteration ends: at the next advance of the token iterator (when the loop latch is not marked
+            # by the `is_rightsided_value` bookkeeping call any more)
+            for i_, e in enumerate(eff):
+                if not e[0].startswith('<') and e[0].split('::')[-1] == 'next' and 'Iterator' in e[0] and not any(has_subterm(x_, STACK) for x_ in e[2] if isinstance(x_, tuple)):
+                    eff = eff[:i_]
+                    if not (isinstance(ret, tuple) and ret and ret[0] == 'stop'):
+                        ret = ('stop', None)
+                    break
+            # `root` is either the node already taken off the stack when the branch is entered (the seeded symbol occurs on the path) or
+            # the first node the branch pops itself; every later pop is the `lower` node
+            roles.clear()
+            root_seeded = any(has_subterm(x_, ROOT) for e in eff if not e[0].startswith('<') for x_ in e[2] if isinstance(x_, tuple))
+            pops = [e[4] for e in eff if not e[0].startswith('<') and e[0].split('::')[-1] == 'pop' and e[2] and e[2][0] == STACK and len(e) > 4 and e[4] is not None]
+            for i_, pt_ in enumerate(pops):
+                roles[pt_[1]] = 'R' if (i_ == 0 and not root_seeded) else 'L'
+            conds = []
+            for e in eff:
+                if e[0] != '<branch>':
+                    continue
+                v, taken = e[2]
+                if v == UNK_ or v[0] == 'unk':
+                    continue
+                conds.append((comp(v), taken))
+            pushes = [(a[0], a[1]) for nm, a, sp in calls_of(eff) if nm == 'push' and len(a) == 2]
+            on_stack = [v for tgt, v in pushes if tgt == STACK]
+            if is_adt(ret, 'result::Result', 'Err') or ret == ('diverge',):
+                out = 'error' if ret != ('diverge',) else 'panic'
+            elif not on_stack:
+                out = '?'
+            else:
+                top = on_stack[-1]
+                out = ({'R': 'root', 'N': 'node', 'L': 'lower'}.get(who(top), '?'), any(v == NODE for v in on_stack))
+            compiled.append((conds, out))
+    except Unknown as e:
+        ctx.unrecognised('S5.8', 'sequence-branch', 'condition', 'a branch condition of the separator handling is not a function of the kinds of root / separator / lower node: %s' % e, span=f.span)
+        return
+
+    def decide(a):
+        hits = set()
+        for conds, out in compiled:
+            for fn_, taken in conds:
+                v = fn_(a)
+                if isinstance(v, bool):
+                    v = 1 if v else 0
+                if isinstance(v, str):
+                    v = KIND_IDX.get(v, v)
+                if (v in getattr(taken, 'excluded', (0,))) if taken[0] == 'sym' else (v != taken[1]):
+                    break
+            else:
+                hits.add(out)
+        return hits
+    op = prog.adt(tables.OPERATOR)
+    KIND_IDX = {v['name']: v['idx'] for v in op['variants']}
+    kinds = ('RootNode', 'Tuple', 'Chain')
+    free_keys = sorted(free)
+    bad, n = [], 0
+    try:
+        for R in kinds:
+            for N in ('Tuple', 'Chain'):
+                if R == N:
+                    ref, Ls = ('root', False), ('RootNode',)
+                elif R == 'RootNode' or prec[R] < prec[N]:
+                    ref, Ls = ('node', True), ('RootNode',)
+                else:
+                    ref, Ls = None, ('RootNode', N)
+                for L in Ls:
+                    for collapse_ok in (True, False):
+                        for vals in itertools.product((False, True), repeat=len(free_keys)):
+                            a = dict(R=R, N=N, L=L, K=R, collapse_ok=collapse_ok)
+                            a.update(zip(free_keys, vals))
+                            want = ref
+                            if not a.get('has:root', True):
+                                want = 'error'
+                            elif ref is None:
+                                if not collapse_ok or not a.get('has:stack', True):
+                                    want = 'error'
+                                else:
+                                    want = ('lower', False) if L == N else ('node', True)
+                            else:
+                                # popping an element of an open sequence always succeeds ("once a sequence is on the stack it has a child"),
+                                # and the collapse is not reached in these cases
+                                if not all(v_ for k_, v_ in a.items() if k_.startswith('has:') and k_ not in ('has:stack', 'has:root')) or not collapse_ok or not a.get('has:stack', True):
+                                    continue
+                            n += 1
+                            got = decide(a)
+                            if got != {want} and len(bad) < 4:
+                                bad.append('root %s, separator %s%s%s: %s, expected %s' % (R, N, (', lower %s' % L) if ref is None else '', ''.join(', %s=%s' % (k_, a[k_]) for k_ in free_keys if k_.startswith('len:')), sorted(map(str, got)), want))
+    except Unknown as e:
+        ctx.unrecognised('S5.8', 'sequence-branch', 'condition', 'a branch condition of the separator handling is not a function of the kinds of root / separator / lower node: %s' % e, span=f.span)
+        return
+    ctx.check(not bad, 'S5.8', 'separator-decision', 'decision', 'for every combination of kinds the separator continues the open sequence of its own kind or opens a new one exactly as the composition rule demands, independent of anything else (%d cases; deviations: %s)' % (n, bad), span=f.span)
+    ctx.floor('S5.8', 'separator_decision_cases', n, 8)
+
+
 def sub_label(eff):
     for v, taken in branches_of(eff):
         s = fmt(v)
@@ -388,6 +592,12 @@ class _Renamed:
 
     def floor(self, rule, *a, **k):
         return self._ctx.floor(self._rule, *a, **k)
+
+    def violation(self, rule, *a, **k):
+        return self._ctx.violation(self._rule, *a, **k)
+
+    def ok(self, rule, *a, **k):
+        return self._ctx.ok(self._rule, *a, **k)
 
 
 def s56(ctx, prog):
